@@ -258,6 +258,13 @@ private:
             if( current_byte & 0x80 ) // run length chunk (high bit = 1)
             {
                 uint8_t chunk_length = current_byte - 127;
+
+                // a run must not cross the end of the image
+                if( chunk_length * bytes_per_pixel > image_size - pixel )
+                {
+                    io_error( "Corrupt targa file: a run exceeds the image size." );
+                }
+
                 uint8_t pixel_data[4];
                 for( size_t channel = 0; channel < bytes_per_pixel; ++channel )
                 {
@@ -276,6 +283,13 @@ private:
 
                 // Write the next chunk_length pixels directly
                 size_t pixels_written = chunk_length * bytes_per_pixel;
+
+                // a chunk must not cross the end of the image
+                if( pixels_written > image_size - pixel )
+                {
+                    io_error( "Corrupt targa file: a chunk exceeds the image size." );
+                }
+
                 this->_io_dev.read( &image_data[pixel], pixels_written );
                 pixel += pixels_written;
             }
